@@ -22,6 +22,26 @@ path = os.path.join(os.path.dirname(os.path.dirname(os.path.abspath(__file__))),
 old = json.load(open(path))
 old['functions'] = funcs
 old['private'] = private
+import ast   # noqa: E402
+
+
+def _signature(f):
+    a = f.node.args
+    pos = a.posonlyargs + a.args
+    defaults = [None] * (len(pos) - len(a.defaults)) + list(a.defaults)
+    out = [[p.arg, 'pos', ast.unparse(d) if d is not None else None] for p, d in zip(pos, defaults)]
+    if a.vararg:
+        out.append(['*' + a.vararg.arg, 'var', None])
+    out += [[p.arg, 'kw', ast.unparse(d) if d is not None else None] for p, d in zip(a.kwonlyargs, a.kw_defaults)]
+    if a.kwarg:
+        out.append(['**' + a.kwarg.arg, 'varkw', None])
+    return out
+
+
+# the calling convention of every public function and method: positional order, names and defaults are part of the API
+old['signatures'] = {f.key: _signature(f) for f in repo.all_functions()
+                     if not f.is_setter and not f.is_property and (not f.name.startswith('_') or f.name == '__init__')
+                     and (f.cls is None or not f.cls.name.startswith('_'))}
 from lsa.resilient import module_digests   # noqa: E402
 old['digests'] = module_digests(repo)
 json.dump(old, open(path, 'w'), indent=1)
